@@ -211,6 +211,26 @@ func init() {
 						okBound = true
 					}
 				}
+				// between attempts the response is emptied, keeping the caller's two switches
+				okReset := false
+				if loop != nil {
+					t := stmtTexts(p, loop.Body.List)
+					sv, rs, rt, gate := -1, -1, -1, -1
+					for i, x := range t {
+						switch x {
+						case "skipBody,streamBody:=res.SkipBody,res.StreamBody":
+							sv = i
+						case "res.Reset()":
+							rs = i
+						case "res.SkipBody,res.StreamBody=skipBody,streamBody":
+							rt = i
+						case "iferr==nil||!retryable(err){returnfalse,err}":
+							gate = i
+						}
+					}
+					okReset = gate >= 0 && sv > gate && rs > sv && rt > rs
+				}
+				r.check(okReset, "another attempt starts from an empty response", p.pos(fd.Pos()), "after the gate: save SkipBody/StreamBody; res.Reset(); restore", "RoundTrip no longer empties the response before it sends the request again: what a connection had received for a stream the server then disclaimed is run together with the answer of the next attempt and reported as a success")
 				r.check(okBound, "the retry loop is bounded", p.pos(fd.Pos()), "for attempt := 0; ; attempt++ { ...; if attempt == <small constant> { return } }", "RoundTrip's retry loop no longer ends after a constant number of attempts: a server that refuses every stream keeps the caller inside RoundTrip for ever")
 				r.check(okGate, "another attempt only for an error retryable() accepts", p.pos(fd.Pos()), "err = roundTripOnce(); if err == nil || !retryable(err) { return false, err } first in the loop", "RoundTrip goes round again without first returning on success or on an error retryable() does not accept: a request the server may have processed is sent twice")
 			} else {
